@@ -24,7 +24,9 @@ import (
 	"golang.org/x/tools/go/ssa/ssautil"
 )
 
-const repoDir = "/repo"
+// repoDir is the tree under check. The registered commands always use /repo; VERIF_REPO
+// lets tools/run_seed.sh run a seeded change in a scratch worktree instead of /repo.
+var repoDir = "/repo"
 
 var verifDir = "/verif"
 
